@@ -21,6 +21,7 @@ import (
 
 	netty "github.com/go-netty/go-netty"
 	"github.com/go-netty/go-netty/codec/frame"
+	"github.com/go-netty/go-netty/utils"
 
 	"verifharness/mock"
 )
@@ -439,7 +440,10 @@ func runFrameCase(c *FrameCase) *FrameResult {
 			inside = false
 		}
 	}
-	src := &fragReader{data: wire[:cut], cuts: cuts, mode: c.Frag, rnd: rnd, eofWithData: inside && c.Seed%2 == 0}
+	// (the decoders that read bodies through utils.ExactReader - length field, varint, fixed - also take a complete
+	// stream whose last bytes come with io.EOF; the delimiter and variable-length decoders treat every (n, EOF) as an error)
+	exactKind := cf.Kind == "lf" || cf.Kind == "varint" || cf.Kind == "fixed"
+	src := &fragReader{data: wire[:cut], cuts: cuts, mode: c.Frag, rnd: rnd, eofWithData: (inside || (exactKind && cut == len(wire) && cut > 0)) && c.Seed%2 == 0}
 	if cf.Kind == "varlen" {
 		src.mode = cf.FragM // the messages of this codec are the transport reads themselves
 	}
@@ -452,7 +456,15 @@ func runFrameCase(c *FrameCase) *FrameResult {
 		func() {
 			defer func() { exc = recover() }()
 			dec.HandleRead(frameCtx{onRead: func(m netty.Message) {
-				b, err := flatten(m)
+				// the next handler either reads the frame itself or converts it like the text / JSON codecs do
+				var b []byte
+				var err error
+				if r, ok := m.(io.Reader); ok && c.Seed%2 == 1 {
+					b, err = utils.ToBytes(r)
+					b = append([]byte(nil), b...)
+				} else {
+					b, err = flatten(m)
+				}
 				if err != nil {
 					panic(err)
 				}
@@ -564,6 +576,11 @@ func runFrameCase(c *FrameCase) *FrameResult {
 		}
 		res.Actions[cf.Kind+"/"+ev.Res]++
 		res.Events = append(res.Events, ev)
+		if ev.Res != "msg" && !c.Raw && inv < len(frames) && frames[inv].start+frames[inv].size <= cut && (exactKind || !src.eofWithData) &&
+			frameLegal(cf, frames[inv].size, len(frames[inv].payload)) {
+			// the stream holds this frame completely (and it is one the decoder's configuration admits): it must be delivered
+			fail("C04", "frame-not-delivered/"+cf.Kind, fmt.Sprintf("%s: frame %d (%d-byte payload) is completely on the stream (%d of %d bytes, fragmentation %s) but the decoder raised %q instead of delivering it", cf.Kind, inv, len(frames[inv].payload), cut, len(wire), c.Frag, ev.Why), inv)
+		}
 		if ev.Res != "msg" || c.Raw {
 			break
 		}
@@ -576,6 +593,19 @@ func runFrameCase(c *FrameCase) *FrameResult {
 	}
 	res.Frags = src.reads
 	return res
+}
+
+// frameLegal: the decoder's configuration admits a frame of this size (frames beyond the maximum are refused by design).
+func frameLegal(cf FrameCfg, size, payload int) bool {
+	switch cf.Kind {
+	case "lf", "delim":
+		return size <= cf.Max
+	case "varint":
+		return payload <= cf.Max
+	case "fixed":
+		return payload == cf.N
+	}
+	return false
 }
 
 // eofProbe fully reads every message and counts deliveries.
@@ -648,7 +678,8 @@ func runFrameFuzz(c *FrameCase, res *FrameResult, fail func(prop, key, msg strin
 	rnd := rand.New(rand.NewSource(c.Seed))
 	cf := c.Cfg
 	for it := 0; it < c.Fuzz; it++ {
-		dec, _ := buildCodec(cf, rnd.Intn(2) == 0)
+		little := rnd.Intn(2) == 0
+		dec, _ := buildCodec(cf, little)
 		n := rnd.Intn(40)
 		if rnd.Intn(4) == 0 {
 			n = rnd.Intn(3000)
@@ -681,6 +712,10 @@ func runFrameFuzz(c *FrameCase, res *FrameResult, fail func(prop, key, msg strin
 				{0xff, 0xff, 0xff, 0xff, 0xff, 0xff, 0xff, 0xff, 0xff, 0x02},
 				{0x80, 0x80, 0x80, 0x80, 0x80, 0x80, 0x80, 0x80, 0x80, 0x80, 0x01},
 				{0xff, 0xff, 0xff, 0xff, 0x0f}, {0x80, 0x80, 0x80, 0x80, 0x10},
+				// ten bytes whose last one carries more than the one bit that still fits 64: an overflow, whatever the low bits say
+				{0x85, 0x80, 0x80, 0x80, 0x80, 0x80, 0x80, 0x80, 0x80, 0x02},
+				{0x81, 0x80, 0x80, 0x80, 0x80, 0x80, 0x80, 0x80, 0x80, 0x7e},
+				{0x80, 0x80, 0x80, 0x80, 0x80, 0x80, 0x80, 0x80, 0x80, 0x04},
 			}
 			data = append(append([]byte(nil), heads[rnd.Intn(len(heads))]...), data...)
 		}
@@ -694,6 +729,17 @@ func runFrameFuzz(c *FrameCase, res *FrameResult, fail func(prop, key, msg strin
 				mustRefuse = true
 			}
 		case "lf":
+			if len(data) >= cf.O+cf.W && cf.W == 8 {
+				// an 8-byte field with the top bit set is a negative length whatever the adjustment adds to it
+				// (top bit of the field = top bit of its first or last byte, depending on the byte order)
+				hi := data[cf.O]
+				if little {
+					hi = data[cf.O+7]
+				}
+				if hi&0x80 != 0 {
+					mustRefuse = true
+				}
+			}
 			if len(data) >= cf.O+cf.W && cf.W <= 4 {
 				fb := data[cf.O : cf.O+cf.W]
 				var v uint64
